@@ -11,6 +11,8 @@ import (
 	"hash/fnv"
 	"os"
 	"path/filepath"
+	"regexp"
+	"runtime"
 	"runtime/debug"
 	"sort"
 	"strconv"
@@ -392,6 +394,40 @@ var inconclusiveOnce sync.Once
 // the pure function exec, and on failure save the (shrunk) history as the
 // replay file and report the violation. It first replays $VERIF_REPLAY / the
 // committed replay files of the unit without rapid.
+// timeBound recognises verdicts that rest on a wall-clock bound (liveness
+// clauses are decided as "completes within a generous bound").
+var timeBound = regexp.MustCompile(`killed by the harness after a timeout|did not converge within|has not returned after|did not complete within|did not return within|no answer within|Client\.Timeout|deadline exceeded|are still arriving|never left it within|no result after|i/o timeout`)
+
+// Saturated reports whether the machine is so overloaded (1-minute load above
+// 2.5 x CPUs, i.e. other heavy jobs besides this check's own 16 shards) that a
+// wall-clock bound says nothing about the code under test.
+func Saturated() (bool, float64) {
+	b, err := os.ReadFile("/proc/loadavg")
+	if err != nil {
+		return false, 0
+	}
+	var l float64
+	fmt.Sscanf(string(b), "%f", &l)
+	return l > 2.5*float64(runtime.NumCPU()), l
+}
+
+// settle turns a verdict that rests on a time bound into "inconclusive" when
+// the machine is saturated: a time budget hit is never a violation by itself.
+func settle(err error) error {
+	if err == nil {
+		return nil
+	}
+	if _, ok := err.(*Unsettled); ok {
+		return err
+	}
+	if timeBound.MatchString(err.Error()) {
+		if sat, l := Saturated(); sat {
+			return &Unsettled{Why: fmt.Sprintf("a time bound was hit while the machine was saturated (load %.0f on %d CPUs), which decides nothing: %s", l, runtime.NumCPU(), err.Error())}
+		}
+	}
+	return err
+}
+
 func Run[H any](t *testing.T, rec *Rec, draw func(*rapid.T) H, exec func(h H, rec *Rec) error) {
 	defer rec.Flush()
 	var last string
@@ -443,7 +479,7 @@ func Run[H any](t *testing.T, rec *Rec, draw func(*rapid.T) H, exec func(h H, re
 			b, _ := json.Marshal(rp)
 			os.WriteFile(inflight, b, 0o644)
 		}
-		if err := Catch(func() error { return exec(h, rec) }); err != nil {
+		if err := settle(Catch(func() error { return exec(h, rec) })); err != nil {
 			if inc, ok := err.(*Unsettled); ok {
 				// the case could not be judged for a reason outside this
 				// property (resource, time bound, a failure that belongs to
